@@ -102,7 +102,7 @@ def compress_as(filename, fmt, target=None, keep=True):
         raise ValueError("Unknown compression format '%s'!" % fmt)
 
     if target is None:
-        target = ".".join([filename, fmt])
+        target = ".".join([os.fspath(filename), fmt])
 
     # The filename inside the zipped archive
     target_filename = os.path.basename(target)
